@@ -161,7 +161,13 @@ def build(case, policy, sched_mod=None):
     h.fut = fut
     # name the shim objects the protocol uses (labels of the operation yield points)
     ed = fut._done_event
-    ctl.name(getattr(ed, "_EventData__event"), "ev")
+    ev = getattr(ed, "_EventData__event", None)
+    if ev is not None and hasattr(ev, "_sname"):
+        ctl.name(ev, "ev")
+    else:
+        # the event is not where the model expects it: the run goes on (the oracle only needs what observers see), the
+        # step-by-step comparison will report that the correspondence no longer holds
+        h.unknown.append(("EventData", 0, "no __event attribute"))
     lk = getattr(fut, "_FutureResult__lock", None)
     if lk is not None and hasattr(lk, "_sname"):
         ctl.name(lk, "lock")
@@ -274,9 +280,10 @@ def snapshot(h):
     owner = None
     if lk is not None and getattr(lk, "_owner", None) is not None:
         owner = getattr(lk._owner, "name", "?")
-    return (getattr(ed, "_EventData__event")._flag,
-            sym(h, getattr(ed, "_EventData__data")),
-            sym(h, getattr(ed, "_EventData__exception")),
+    ev = getattr(ed, "_EventData__event", None)
+    return (ev._flag if ev is not None and hasattr(ev, "_flag") else "?",
+            sym(h, getattr(ed, "_EventData__data", None)),
+            sym(h, getattr(ed, "_EventData__exception", None)),
             owner,
             getattr(fut, "_FutureResult__completed", None),
             sym(h, getattr(fut, "_FutureResult__callback")),
@@ -750,6 +757,7 @@ class Main(pipeline.Stream):
 
     def __init__(self):
         self.stats = {}
+        self.problems = []
         self.n = 0
 
     def jobs(self, tier):
@@ -773,7 +781,8 @@ class Main(pipeline.Stream):
                 # (a tree that violates the property may have more yield points than the budgets
                 # foresee: the violation found so far is reported; otherwise the claim of
                 # exhaustiveness would be false, so stop)
-                raise RuntimeError("exploration budget too small for %s: %r" % (key, st))
+                self.problems.append("exploration budget too small for %s (the code has more yield points than the model "
+                                     "foresees): exhaustiveness NOT established: %r" % (key, st))
             cases.extend(cs)
         n_rand = self.n_random(tier)
         rjobs = [(self.rand_programs(), n_rand // 16, rng.randrange(1 << 30)) for _ in range(16)] if n_rand else []
